@@ -20,6 +20,7 @@ func init() {
 		Corpus:   corpusBoth,
 		Impl:     implBoth,
 		Check:    checkBoth,
+		Facts:    facts,
 		Extras: []core.Extra{
 			{Name: "syncring-honest-wrap", Run: extraHonestWrap, Tiers: []string{"thorough"}},
 			{Name: "syncring-cap-rounding", Run: extraCapRounding},
